@@ -596,9 +596,15 @@ class TlcJob:
                 self.err = ex
 
         self.thread = threading.Thread(target=work, daemon=True)
-        self.thread.start()
+        self.started = False
+
+    def start(self):
+        if not self.started:
+            self.started = True
+            self.thread.start()
 
     def result(self):
+        self.start()
         self.thread.join()
         if self.err is not None:
             raise self.err
@@ -773,17 +779,25 @@ def check(run: Run):
         plan = [p for p in plan if p[0] in only.split(",")]
     with Scratch("C04") as scratch:
         # all model-checking runs start now (they share the TLC worker budget) and are replayed in order as they finish
-        share = ({"small": 1, "views": 2, "aln": 2, "hist": 1, "names": 1, "stride": 1} if tier == "thorough" else {"views": 3, "aln": 2, "hist": 1, "names": 1, "stride": 1}) if len(plan) >= 3 else {}
-        jobs = [TlcJob(scratch, name, cfg, level, share.get(name, max(2, NPROC // len(plan)))) for name, cfg, level, _, _ in plan]
+        # at most three model-checking runs at a time (8 TLC workers between them); the next one starts when a stage is done
+        share = {"small": 2, "views": 4, "aln": 2, "hist": 3, "names": 1, "stride": 3} if tier == "thorough" else {"views": 4, "aln": 2, "hist": 2, "names": 1, "stride": 2}
+        jobs = [TlcJob(scratch, name, cfg, level, share.get(name, 2)) for name, cfg, level, _, _ in plan]
+        for job in jobs[:3]:
+            job.start()
         try:
             for job, (_, _, level, er, wr) in zip(jobs, plan):
                 if level == "hist":
                     stage_hist(run, scratch, job, totals, tm, er)
                 else:
                     stage(run, scratch, job, totals, tm, er, wr, alg_rates.get(job.name, 0.0))
+                for nxt in jobs:
+                    if not nxt.started:
+                        nxt.start()
+                        break
         finally:
             for job in jobs:
-                job.thread.join()
+                if job.started:
+                    job.thread.join()
     cases = (totals["queries"] + totals["window_queries"] + totals["slices"] + totals["created"] + totals["algebra"]
              + totals["aln_queries"] + totals["aln_slices"] + totals["aln_projections"] + totals["aln_created"]
              + totals["aln_region_queries"] + totals["aln_algebra"] + 2 * totals["history_objects"] + totals["names_queries"])
